@@ -149,7 +149,8 @@ Definition spec_step (K : nat) (s : spec) (o : op) (hint : list N) : option (spe
           end
       end
   | Reopen _ | Reload _ | SetPunch _ | UpdateLunMap => Some (s, ROk, [])
-  | Candidates _ => Some (s, ROk, [])
+  | Candidates None => Some (s, ROk, [])
+  | Candidates (Some c) => if N.eqb c 0 then None else Some (s, ROk, [])   (* a checkpoint is a snapshot *)
   | Resize nb =>
       if nb <? size s then Some (s, RErr, [])
       else Some (mkspec (grow_img K (size s) nb (live s))
